@@ -256,9 +256,9 @@ fn mulf_oracle(c: &MulF) -> Verdict {
 
 pub fn subs() -> Vec<Box<dyn DynSub>> {
     vec![
-        sub(Sub { name: "c18.out", source: Source::Gen(out_strategy, 600_000, 20_000_000), oracle: out_oracle, known: no_known, hang_is_violation: false }),
-        sub(Sub { name: "c18.in", source: Source::Gen(in_strategy, 1_200_000, 40_000_000), oracle: in_oracle, known: no_known, hang_is_violation: true }),
-        sub(Sub { name: "c18.compose_f64", source: Source::Gen(composef_strategy, 200_000, 5_000_000), oracle: composef_oracle, known: no_known, hang_is_violation: true }),
-        sub(Sub { name: "c18.duration_x_f64", source: Source::Gen(mulf_strategy, 400_000, 10_000_000), oracle: mulf_oracle, known: no_known, hang_is_violation: true }),
+        sub(Sub { name: "c18.out", source: Source::Gen(out_strategy, 2_400_000, 20_000_000), oracle: out_oracle, known: no_known, hang_is_violation: false }),
+        sub(Sub { name: "c18.in", source: Source::Gen(in_strategy, 4_800_000, 40_000_000), oracle: in_oracle, known: no_known, hang_is_violation: true }),
+        sub(Sub { name: "c18.compose_f64", source: Source::Gen(composef_strategy, 800_000, 5_000_000), oracle: composef_oracle, known: no_known, hang_is_violation: true }),
+        sub(Sub { name: "c18.duration_x_f64", source: Source::Gen(mulf_strategy, 1_600_000, 10_000_000), oracle: mulf_oracle, known: no_known, hang_is_violation: true }),
     ]
 }
